@@ -26,6 +26,7 @@ def _work(args):
     except Exception as ex:      # the driver itself failed: report, never silently skip
         import traceback
         return {"crash": traceback.format_exc(), "case": case}
+    tr.exact = exact
     alarms = xm.run_monitors(tr, which=[pid])
     kinds = {}
     for s in tr.steps:
